@@ -11,6 +11,7 @@ Decided (structure of the loaders, for all file contents at once):
  RF9-version  every file version the header switch accepts is decoded by the data switch
  RF10-type    transition types copied from the file are compared with the number of types, for all indices, before the
               object is returned; the number of types is at least 1 at the success return
+ RF13-keyend  tzm_find locates the probed record's zone offset from the key's terminator, so the upper half starts behind the record
  RF2-tzm      the map compiler's record word and the reader's decoding agree (shift, byte order, zone offset width guarded)
 
 Not decided: faithfulness of the bisection in tzm_find over all maps (a data-structure invariant over variable-length
@@ -608,6 +609,52 @@ def check_tzmap(P, R):
                       "(a map without mapped names): lower <= upper is not implied by the conditions passed", x)
 
 
+def check_keyend(P, R):
+    """progress of the map bisection: the upper half starts behind the probed record, whose zone offset word is found by
+    aligning up from the key's terminator -- so the cursor it is computed from must be at a NUL byte on every path"""
+    rule = "RF13-keyend"
+    tu = P.tu("libdut_a-tzmap.o")
+    fn = tu.func("tzm_find")
+    R.saw(fn)
+    sites = []
+    for x in fn.walk():
+        if x.get("k") == "CallExpr" and x.get("callee") == "align_to":
+            a = strip(call_args(x)[1])
+            cur = None
+            for y in walk(a):
+                if y.get("k") == "DeclRefExpr" and y.get("dk") == "var":
+                    cur = y
+            if cur is not None:
+                sites.append((x, cur))
+    if not sites:
+        raise AnalysisBroken("%s: the alignment step of tzm_find was not recognised" % rule)
+    for x, cur in sites:
+        gs = guards_of(fn, x)
+        atnul = False
+        for g in gs:
+            if "pol" not in g:
+                continue
+            c, pol = g["cond"], g["pol"]
+            c = strip(c)
+            while c is not None and c.get("k") == "UnaryOperator" and c.get("op") == "!":
+                pol = not pol
+                c = strip(c["c"][0])
+            # *cur is false  /  *cur == 0 is true
+            if c is not None and c.get("k") == "UnaryOperator" and c.get("op") == "*" and strip(c["c"][0]).get("d") == cur["d"] and not pol:
+                atnul = True
+            if c is not None and c.get("k") == "BinaryOperator" and c.get("op") in ("==", "!="):
+                l, r = strip(c["c"][0]), strip(c["c"][1])
+                if l is not None and l.get("k") == "UnaryOperator" and l.get("op") == "*" and strip(l["c"][0]).get("d") == cur["d"] \
+                        and const_of(r) == 0 and ((c["op"] == "==") == pol):
+                    atnul = True
+        if atnul:
+            R.ob(rule, "tzm_find: the zone offset word is located from the key's terminator (*%s == 0)" % cur.get("n"), True)
+        else:
+            R.finding(rule, fn, "upper half start", "the next record is located by aligning up from `%s`, which need not be at the end of the "
+                      "probed key (a mismatch stops the comparison anywhere in it): the upper half can start inside the same key and the "
+                      "bisection probes it again for ever" % cur.get("n"), x)
+
+
 def check_tzm_format(P, R):
     """the record word: writer  htobe32((off & MASK) << SH)  /  reader  be32toh(word) >> SH  /  validator's byte picture"""
     rule = "RF2-tzm"
@@ -690,6 +737,7 @@ def check(P, R, tier):
     check_versions(P, R, tu)
     check_types(P, R, tu, lfm)
     check_tzmap(P, R)
+    check_keyend(P, R)
     check_tzm_format(P, R)
 
 
